@@ -173,6 +173,17 @@ Definition children (s : bstate) (p : nat) : list nat :=
 Definition parent (s : bstate) (c : nat) : option nat :=
   match b_reg s c with Some cx => option_map (b_pid s) (b_par s cx) | None => None end.
 
+(** Restarts.  A restart (process.tryRestart -> process.Start) replaces the
+    receiver and keeps the process, its registration and its Context — so the
+    children map and parentCtx of the actor are untouched: a restart is NOT an
+    event of this machine.  Histories with restart markers are run by erasing
+    the markers ([hrun]); TreeProofs.v states what that means for the listing
+    theorem ([restart_keeps_children]). *)
+Inductive hop := HOp (o : bop) | HRestart (n : nat).
+Definition ops_of (h : list hop) : list bop :=
+  flat_map (fun x => match x with HOp o => [o] | HRestart _ => [] end) h.
+Definition hrun (h : list hop) : bstate := brun (ops_of h).
+
 (** The specification: who is alive, and which (parent, child) spawns are in
     force.  A pair disappears when the child or the parent has stopped. *)
 Record sstate := { s_alive : list nat; s_rel : list (nat * nat); s_par : list (nat * nat) (* child, spawner *) }.
